@@ -150,9 +150,9 @@ def _spans(kv, p):
 def instances(tier):
     out = []
     quick = tier == 'quick'
-    degs = (1, 2, 3) if quick else (1, 2, 3, 4, 5)
+    degs = (1, 2, 3) if quick else (1, 2, 3, 4, 5, 6, 7)
     for p in degs:
-        pats = fam.kq_patterns(p) if quick else fam.kt_patterns(p, 3 if p <= 3 else 2)
+        pats = fam.kq_patterns(p) if quick else fam.kt_patterns(p, 3 if p <= 3 else (2 if p <= 5 else 1))
         for m in pats:
             kv = fam.pattern(p, m)
             for rational in (False, True):
@@ -187,13 +187,16 @@ def instances(tier):
     # surfaces
     surf = [((1, 2), ((1,), ())), ((2, 1), ((), (1,))), ((2, 2), ((1,), (2,))), ((3, 2), ((), (1,)))]
     if not quick:
-        surf += [((2, 3), ((1, 1), (1,))), ((3, 3), ((1,), (1,))), ((1, 1), ((1, 1), (1,))), ((2, 2), ((2, 1), (1, 2)))]
+        surf += [((2, 3), ((1, 1), (1,))), ((3, 3), ((1,), (1,))), ((1, 1), ((1, 1), (1,))), ((2, 2), ((2, 1), (1, 2))), ((4, 2), ((1,), (2,))), ((3, 3), ((2, 1), (3,))), ((1, 4), ((1, 1, 1), ()))]
     for (pu, pv), (mu, mv) in surf:
         for rational in (False, True):
             kvu, kvv = fam.pattern(pu, mu), fam.pattern(pv, mv)
             out.append(inst('surface p%d,%d m%s,%s %s' % (pu, pv, mu, mv, 'rat' if rational else 'nonrat'), h_surface, timeout=600,
                             min_paths=(_spans(kvu, pu) + 1) * (_spans(kvv, pv) + 1),
                             pu=pu, pv=pv, kvu=kvu, kvv=kvv, dim=3, rational=rational))
+    out.append(inst('surface p2,1 unclamped-u rat', h_surface, timeout=600, pu=2, pv=1, kvu=fam.unclamped_uniform(2, 4), kvv=fam.pattern(1, (1,)), dim=3, rational=True))
+    out.append(inst('surface p1,2 unclamped-v nonrat', h_surface, timeout=600, pu=1, pv=2, kvu=fam.pattern(1, ()), kvv=fam.unclamped_unit(2, 4), dim=3, rational=False))
+    out.append(inst('volume p(1,1,2) unclamped-w nonrat', h_volume, timeout=900, degs=(1, 1, 2), kvs=[fam.pattern(1, ()), fam.pattern(1, (1,)), fam.unclamped_unit(2, 4)], dim=3, rational=False))
     out.append(inst('surface p2,1 domain[2,5]x[0,1] rat', h_surface, timeout=600, pu=2, pv=1, kvu=fam.pattern(2, (1,), 2, 5), kvv=fam.pattern(1, (1,)), dim=3, rational=True))
     for (pu, pv), (mu, mv), (ssu, ssv) in ([((1, 2), ((1,), ()), (2, 3)), ((2, 2), ((1,), (1,)), (4, 3))] if quick else
                                            [((1, 2), ((1,), ()), (2, 3)), ((2, 2), ((1,), (1,)), (4, 3)), ((3, 2), ((1,), (1, 1)), (5, 7)), ((2, 3), ((), (1,)), (6, 2))]):
@@ -203,7 +206,7 @@ def instances(tier):
     # volumes
     vols = [((1, 1, 2), ((), (1,), ())), ((2, 1, 1), ((1,), (), ()))]
     if not quick:
-        vols += [((2, 2, 2), ((), (), (1,))), ((1, 2, 1), ((1,), (1,), (1,)))]
+        vols += [((2, 2, 2), ((), (), (1,))), ((1, 2, 1), ((1,), (1,), (1,))), ((3, 1, 2), ((1,), (), ())), ((1, 1, 3), ((), (1,), (2,)))]
     for degs3, ms in vols:
         for rational in (False, True):
             kvs = [fam.pattern(d, m) for d, m in zip(degs3, ms)]
